@@ -231,6 +231,15 @@ class Engine(ExprMixin):
             return True
         if z3.is_false(cond):
             return False
+        if getattr(self, "pure", 0):
+            # inside a quantified (branch-free) context: a branch must be decided by what is assumed there; it is neither
+            # recorded as a decision nor added to the path condition (it follows from it)
+            t_ok, f_ok = self.feasible(cond), self.feasible(z3.Not(cond))
+            if t_ok and f_ok:
+                raise Unsupported("branch inside a quantified (branch-free) context")
+            if not t_ok and not f_ok:
+                raise PathEnd()
+            return t_ok
         if self.dpos < len(self.decisions):
             d = self.decisions[self.dpos]
             self.dpos += 1
